@@ -1,4 +1,5 @@
 import Dos.Multi
+import Dos.MultiBulk
 import Dos.Wire
 import Dos.StoreDriver
 
@@ -51,6 +52,16 @@ def stepLine (d : DState) (line : String) : DState × String :=
       let (f, m') := lookup d.m h k
       ({ d with m := m' }, showFound d.tab d.m f)
     | _, _ => (d, "bad-op")
+  | ["bulk", h, inMax, scanMax, skip, ks] =>
+    -- the batched three-stage lookup as written in the code: one `key=form` per reported key, sorted by key
+    match h.toNat?, inMax.toNat?, scanMax.toNat?, natList ks with
+    | some h, some inMax, some scanMax, some ks =>
+      let (res, m') := bulkLookup d.m h ks inMax scanMax (skip == "1")
+      let forms := res.map (fun kf => (kf.1, match kf.2 with
+        | .missing => "missing" | .loose _ => "loose" | .packed r => s!"packed.{r.pack}.{r.off}.{r.len}"))
+      let sorted := (sortNats (forms.map (·.1))).map (fun k => s!"{k}=" ++ String.intercalate "+" ((forms.filter (·.1 == k)).map (·.2)))
+      ({ d with m := m' }, if sorted.isEmpty then "-" else String.intercalate "," sorted)
+    | _, _, _, _ => (d, "bad-op")
   | ["list", h] =>
     match h.toNat? with
     | some h => let (l, m') := qList d.m h; ({ d with m := m' }, showNats (sortNats l))
